@@ -139,6 +139,15 @@ C14 = {
             h("c14_write_step_full", T, "same", "base<=2, overlay<=2, log 1"),
             h("c14_write_step_prefix", T, "same, observed through query_prefix", "base<=2, overlay<=1"),
             h("c14_write_step_mixed", T, "same, compound keys", "base<=1, overlay<=1", X3),
+            h("c14_merge_iter_small", Q, "real session QueryIterator over ANY sorted committed iterator and ANY sorted session iterator: ascending, newest value, no tombstone, no duplicate, nothing missing", "2 committed + 2 session items, 3 keys"),
+            h("c14_merge_iter_full", T, "same", "3 + 3 items"),
+            h("c14_merge_iter_mixed", T, "same, compound keys", "3 + 3 items, 6 keys", X3),
+            h("c14_prefix_iter_small", Q, "real PrefixIter over ANY overlay map and ANY prefix: exactly the entries under the prefix, ascending (tombstones included)", "<=3 entries, prefixes [] and [c]"),
+            h("c14_prefix_iter_mixed", T, "same, compound keys that are prefixes of one another", "<=3 entries, 6 keys, 7 prefixes", X3),
+            h("c14_overlay_prefix_min", Q, "full stack query_prefix (base index + Arc/Yoke/PrefixIter + merge), minimal size", "base<=1, overlay<=1"),
+            h("c14_write_step_min", Q, "session insert/delete on an empty overlay", "base<=1, overlay empty, log empty"),
+            h("c14_action_step_min", Q, "real Session::action, failing/succeeding policy, minimal size", "base<=1, log empty, script 1 write", S33),
+            h("c14_receive_step_min", Q, "real Session::receive, failing/succeeding rule, minimal size", "base<=1, log empty, script 1 write", S33),
             h("c14_action_step_small", Q, "real Session::action with a policy that (optionally publishes,) writes and then accepts or REJECTS: failure leaves every query and fact_log unchanged and rolls both sinks back; success = base;log;script", "base<=1, log 1, script 1 write", S33),
             h("c14_action_step_full", T, "same", "base<=2, log 1, script 2 writes", S33),
             h("c14_action_step_prefix", T, "same, observed through query_prefix", "base<=2, log 1, script 1", S33),
@@ -195,6 +204,11 @@ C12 = {
             h("c12_replay_step_no_prior", Q, "apply_updates without prior (delete removes)", "top<=2"),
             h("c12_write_step_prefix", T, "write then query_prefix across perspective, prior perspective, index", "<=1 per level"),
             h("c12_write_step_mixed", T, "write with compound keys", "top<=1, 1 index", X3),
+            h("c12_find_prefixes_small", Q, "find_prefixes over ANY fact map and ANY prefix: exactly the entries under the prefix, ascending", "<=3 entries, prefixes [] and [c]"),
+            h("c12_find_prefixes_mixed", T, "same, compound keys that are prefixes of one another (range start + take_while)", "<=3 entries, 6 keys, 7 prefixes", X3),
+            h("c12_index_chain_prefix_min", Q, "query_prefix over two chained indexes, minimal", "2 indexes x <=1 entry"),
+            h("c12_perspective_chain_exact_min", Q, "perspective map directly over a committed index", "top<=1, 1 index x <=1"),
+            h("c12_perspective_chain_prefix_min", Q, "same, query_prefix", "top<=1, 1 index x <=1"),
             h("c12_compact_exact", Q, "LinearStorage::compact of ANY chain: stand-alone index (no prior, depth 1), no tombstone / empty map stored, same answers", "2 indexes x <=1 entry"),
             h("c12_compact_deep", T, "same", "3 indexes x <=1 entry"),
             h("c12_compact_prefix", T, "same, observed through query_prefix", "2 indexes x <=1 entry"),
